@@ -424,6 +424,7 @@ package isobmff
 //@   modifies stream(b.reader.br), b.remain, b.outer.remain, b.outer.outer.remain, b.reader.offset
 //@   ensures [C11] remOK(b) && pos(b.reader.br) >= old(pos(b.reader.br)) && noInc(b) && charged(b) && exactTop(b)
 //@   ensures err == nil ==> inner.outer == b && inner.reader == b.reader && inner.remain >= 0
+//@   ensures [C11] err == nil ==> inner.remain == int(inner.size)
 
 
 //@ func (*Reader).readPreview
@@ -510,6 +511,9 @@ package isobmff
 //@   requires r != nil && is(r, "*isobmff.box")
 //@   requires [C11] wf2(as(r, "*isobmff.box"))
 //@   requires [C11] h.Size == be32At(as(r, "*isobmff.box").reader.br, pos(as(r, "*isobmff.box").reader.br) - 4) && h.Width == be16At(as(r, "*isobmff.box").reader.br, pos(as(r, "*isobmff.box").reader.br) - 10) && h.Height == be16At(as(r, "*isobmff.box").reader.br, pos(as(r, "*isobmff.box").reader.br) - 8)
+// the reader handed to the preview callback is limited to exactly what the PRVW box declares after its 24-byte header - not to
+// the jpeg-size field inside that header, nor to what is left of the enclosing box
+//@   requires [C11] as(r, "*isobmff.box").remain == int(as(r, "*isobmff.box").size) - 24
 //@   modifies stream(as(r, "*isobmff.box").reader.br), as(r, "*isobmff.box").remain, as(r, "*isobmff.box").outer.remain, as(r, "*isobmff.box").outer.outer.remain, as(r, "*isobmff.box").reader.offset, foreign(isobmff)
 //@   ensures [C11] remOK(as(r, "*isobmff.box")) && pos(as(r, "*isobmff.box").reader.br) >= old(pos(as(r, "*isobmff.box").reader.br)) && noInc(as(r, "*isobmff.box")) && charged(as(r, "*isobmff.box")) && exactTop(as(r, "*isobmff.box"))
 
